@@ -4,7 +4,27 @@ import json, os
 V = os.path.dirname(os.path.dirname(os.path.abspath(__file__)))
 
 MC = "model checking: bounded exhaustive enumeration on the real code"
+E1NOTE = "trusts the reference interpreter refjet (mc/internal/refjet; shares no code with jet; cases whose outcome the statement does not fix are skipped and counted); nothing outside the stated alphabet and bounds is covered"
+E1TECH = "bounded exhaustive enumeration of generator-ASTs, each printed to jet source, executed on the real engine and compared with the reference interpreter's trace"
 checks = {
+ "C01": dict(engine="E1", ref="6/C01", technique=E1TECH,
+   text="Every context of <=2 (thorough 3) nested frames (if/else/range/range-else/block/yield/content/include/try/catch/exec/includeIfExists) x 3 outer shapes (plain, root layout of an extends chain, leaf block rendered by the root's yield) x 24 values x 18 action forms (plain, piped function, html, 5 safe writers in 3 call forms) x 4 escapers is rendered by jet and must equal, byte for byte, literal text ++ E(printed value). Exhaustive inside that product.", note=E1NOTE),
+ "C03": dict(engine="E1", ref="6/C03", technique="bounded exhaustive enumeration of atom sequences (text/action/comment/import) under 7 delimiter configurations, executed on the real engine and compared with an atom-level reference renderer",
+   text="Every sequence of <=4 (thorough 5) atoms over ~22 letters (text incl. lone delimiter bytes and whitespace mixes, actions in 7 trim/spacing variants, 4 comment kinds) under 7 delimiter/comment configurations, plus headers with import clauses, must render exactly what a 40-line reference over the atom list renders; ambiguous concatenations are detected by an independent scan and skipped.", note="trusts the atom-level reference (mc/internal/props/c03.go c03Ref) and the ambiguity scan; delimiter configurations are the 7 listed ones"),
+ "C04": dict(engine="E1", ref="6/C04", technique=E1TECH,
+   text="All single-operator expressions over a 20-operand alphabet, all two-operator trees (13 binary, 3 unary, ternary) over 8 operands, all three-binary-operator trees over one (thorough two) operator(s) per precedence level, every operator x 10 left x 6 right operand shapes tight vs spaced, and all depth-2 trees over the lazy connectives with side-effecting probes (call log compared); each printed with minimal and with full parentheses.", note=E1NOTE+"; mixed-kind operations the statement does not define are skipped"),
+ "C05": dict(engine="E1", ref="6/C05", technique=E1TECH,
+   text="All if/else-if/else chains up to two else-if arms over a 31-value condition alphabet, and every nesting of depth <=2 (thorough 3) of if and range units over 21 rangeables (slices, arrays, pointers, maps, channels, ints(), index-providing and index-less custom rangers, nil, non-rangeable) x 6 variable forms x else.", note=E1NOTE+"; truthiness of zero-valued structs/arrays is treated as unspecified; 2-entry maps accept either iteration order"),
+ "C07": dict(engine="E1", ref="6/C07", technique=E1TECH,
+   text="All statement sequences of <=3 over 10 atoms (:=, =, multi-assignment, discard, reads of x, y and '.') inside each of 17 frames (if, if-let, 5 range forms, block/yield/include with and without context and parameters, yield-with-content), nested to depth 2 (thorough 3), under 4 variable origins (local, VarMap, global, both); the caller's VarMap after Execute is compared too; loop-variable capture over every ranger kind.", note=E1NOTE),
+ "C08": dict(engine="E1", ref="6/C08", technique=E1TECH,
+   text="All template sets with an extends chain of 1-3 and 0-2 imports in which every non-root template defines any subset of two block names (plain, conditional or nested placement) x 8 positions of the yield/definition site in the root layout; 3-parameter blocks with every default pattern x every ordered subset of named arguments x 3 block homes; content nesting, recursion and caller-scope variants.", note=E1NOTE+"; positional yield arguments, parameters with neither argument nor default and content-less yields of content-showing blocks are unspecified"),
+ "C09": dict(engine="E1", ref="6/C09", technique=E1TECH,
+   text="Call kind (include, exec, includeIfExists as action and as condition) x call site nested <=2 deep over 7 frames x context x 5 name forms x 3 referrer depths x 26 callee shapes (return at every position, return followed by each statement kind, extends chains 1-3, declarations, caller blocks, failing, missing); after the call the caller probes its variables, context and blocks.", note=E1NOTE+"; a range reached after a return, and a return inside an included template while the includer is inside a range, are unspecified"),
+ "C12": dict(engine="E1", ref="6/C12", technique=E1TECH,
+   text="~85 failure classes x 4 files (executed, included, imported library block, root layout) x 7 line layouts x 7 nestings: Execute must return an error (no panic), the writer must hold exactly the reference prefix, and for failures jet detects itself the message must name the failing file and a line inside the failing action's opening delimiters.", note=E1NOTE+"; the message format is matched loosely (first template path in the message, first integer after it); failures reported by built-in functions (len, isset, map, exec) only need to be errors"),
+ "C13": dict(engine="E1", ref="6/C13", technique=E1TECH,
+   text="Try bodies built from every sequence of <=3 (thorough 4) nested frames over 10 frame kinds x failure (none / innermost point / after the innermost frame / end; identifier, error panic, string panic) x 4 catch forms x 3 placements; afterwards the program probes context, variables, catch variable and {{yield content}}; compared byte for byte with the transactional reference.", note=E1NOTE),
  "C15": dict(engine="E1", ref="6/C15", technique="exhaustive enumeration of name spellings x entry points, replayed on the real Set against a path.Clean reference resolver (recording Loader/Cache)",
    text="Every name spelling of <=4 segments over {a,b,.,..,empty} x relative/absolute x trailing slash, at 9 entry points, from referrers at depth 0-2, under 3 extension lists, is run on the real Set with a recording Loader and Cache; the exact request trace must equal the reference resolution. Exhaustive inside that alphabet, nothing outside it.",
    note="trusts path.Join/path.Clean as the definition of 'lexically clean'; backslash spellings excluded (platform dependent)"),
